@@ -19,8 +19,8 @@ e) revocation is visible to the next request: user_ops::revoke_key returns Ok on
 (g) only key creation activates a key: every User / UserKey record built in engine::auth whose secret_key is copied from an existing record takes `active` from that same record (or sets it false: revocation);
 a constant true next to a copied secret re-activates a revoked key on the next permission update.
 """
-FLOOR = 16
-REQUIRED = ["C13.a", "C13.b1", "C13.b2", "C13.b3", "C13.c", "C13.d", "C13.e", "C13.f", "C13.g", "C13.h", "C13.i"]
+FLOOR = 17
+REQUIRED = ["C13.a", "C13.b1", "C13.b2", "C13.b3", "C13.c", "C13.d", "C13.e", "C13.f", "C13.g", "C13.h", "C13.i", "C13.j"]
 
 GATES = r"(tcp::listener::check_auth|http::dispatcher::check_auth_with_headers|Connection::check_auth|AuthManager::validate_session_token)(::\{closure#0\})?$"
 MAPT = re.compile(NEXT_TRANSPARENT.pattern[:-2] + r"|(std|core)::option::Option::<T>::(map|and_then))$")
@@ -666,3 +666,43 @@ def run(ctx):
                 bad.append(("append-behind-torn-tail", "AuthWalStorage::new_with_sync can reach seek(End) for an existing file without the torn-tail truncation", sp(b, c.bb)))
         return bad
     ctx.run("C13.i", "K2 CUT", "AuthWalStorage::new_with_sync", "the auth WAL is appended to only behind its last replayable frame", i_)
+
+    def j_(inst):
+        """REVOKE KEY must survive a restart: what revoke_key persists is the record with the key switched off - the User handed to
+        store_user_in_db and the UserKey put into the cache both carry `active = false` (a constant), not the flag of the record read."""
+        bad = []
+        b = F.fn("auth::user_ops::revoke_key")
+        st = one(b, r"db_ops::store_user_in_db$")
+        ins = [c for c in b.calls if not c.cleanup and c.nname.endswith("UserCache::insert")]
+        if not ins:
+            raise AnchorMissing("UserCache::insert in revoke_key")
+
+        def active_of(op, depth=3):
+            """provenance of the `active` field of the record an operand denotes"""
+            out = set()
+            for l in b.origins(op):
+                if l[0] == "agg" and re.search(r"auth::types::User(Key)?::User(Key)?$|auth::types::User(Key)?$", l[1]):
+                    for (bb, jx, v, dst) in b.aggregates("User") + b.aggregates("UserKey"):
+                        if bb == l[2]:
+                            o = dict(zip(v.get("fields", []), v["o"])).get("active")
+                            if o is not None:
+                                out |= {fmt_leaves([x]) for x in b.origins(o)}
+                elif l[0] == "call" and depth > 0 and re.search(r"From<.*>>::from$|Into<.*>>::into$|Clone>::clone$", l[1]):
+                    cc = b.call_at(l[2])
+                    if cc.args:
+                        sub = active_of(cc.args[0], depth - 1)
+                        out |= sub if sub else {"as in " + fmt_leaves(b.origins(cc.args[0]))}
+                else:
+                    out.add("as in " + fmt_leaves([l]))
+            return out
+        pa = active_of(st.args[1])
+        inst.sites += [sp(b, st.bb), "persisted record: active <- %s" % sorted(pa)]
+        if pa != {"const:false"}:
+            bad.append(("revocation-not-persisted", "revoke_key persists a record whose `active` is %s, not the constant false: the auth WAL never records the revocation and the key works again after a restart" % sorted(pa), sp(b, st.bb)))
+        for c in ins:
+            ca = active_of(c.args[1])
+            inst.sites.append("cached record @ %s: active <- %s" % (sp(b, c.bb), sorted(ca)))
+            if ca != {"const:false"}:
+                bad.append(("revocation-not-cached", "revoke_key caches a record whose `active` is %s, not the constant false" % sorted(ca), sp(b, c.bb)))
+        return bad
+    ctx.run("C13.j", "K7 PROV + K11", "engine::auth::user_ops::revoke_key", "a revocation is persisted and cached as active = false", j_)
